@@ -333,6 +333,40 @@ def r2c_resolution_complete(F, res, rid="C16-R2"):
                           "diagnosed reaches the later passes unresolved (unwrap of a missing index)" % fn, f.loc())
 
 
+def r8_types_iff_default(F, res):
+    """Backs the `generator.types.as_ref().unwrap()` sites of the default-builder code: the AST types are deduced whenever the
+    builder type is Default - under no further condition."""
+    rid = res.rule("C16-R8", "ParserGenerator::new deduces the AST types iff builder_type == Default (the default-builder generator "
+                   "unwraps them)", floor=1)
+    f = F.fn("rustemo_compiler::generator::ParserGenerator::<'g, 's>::new")
+    if f is None or not f.has_body():
+        res.anchor_lost(rid, "ParserGenerator::new not found")
+        return
+    rows = set()
+    for p in Sim(f, F, max_paths=100000).run():
+        if p.end != "return":
+            continue
+        r = [e[1] for e in p.events if e[0] == "return"][0]
+        if not (r[0] == "agg" and r[1].endswith("Ok")):
+            continue
+        s = dict(r[2]).get("0")
+        ty = dict(s[2]).get("types") if isinstance(s, tuple) and s[0] == "agg" else None
+        if not (isinstance(ty, tuple) and ty[0] == "agg"):
+            continue
+        bt = [v for tm, v in p.cond if tm[0] == "discr" and mir.has_field(tm[1], "builder_type", "Settings")]
+        isdef = None
+        if bt and isinstance(bt[-1], frozenset):
+            isdef = True if bt[-1] == frozenset(["Default"]) else (False if "Default" not in bt[-1] else None)
+        rows.add((isdef, ty[1].rsplit("::", 1)[-1]))
+    if not rows or any(r[0] is None for r in rows):
+        res.anchor_lost(rid, "decision on builder_type in ParserGenerator::new not recognised (%s)" % sorted(rows, key=str), f.loc())
+    elif rows == {(True, "Some"), (False, "None")}:
+        res.ok(rid, "types-iff-default", f.loc(), "types: Some iff BuilderType::Default")
+    else:
+        res.violation(rid, "types-iff-default", "ParserGenerator::new: with the default builder the AST types can be left out (%s): the "
+                      "generator of the default builder unwraps them and panics" % sorted(rows, key=str), f.loc())
+
+
 def r3b_dense_indices(F, res, rid="C16-R3"):
     """Index allocation in the rule loop: a nonterminal index is drawn only when the rule's name has none yet (the typed vectors
     that are indexed with it have exactly one slot per index: C16-R1 class `typed index`)."""
@@ -623,6 +657,7 @@ def run(ctx, res):
     r5_recognizer_pairing(F, res)
     r6_no_match(F, res)
     r7_delegate(F, res)
+    r8_types_iff_default(F, res)
     res.extra.update({"obligations": stats["sites"], "discharged": stats["sites"] - stats["new"] - stats["finding"],
                       "census": stats, "stale_triage_rows": len(stale)})
     res.explanation = (
